@@ -34,6 +34,7 @@ class Fn:
         fragment=None,
         str_match=False,
         arms=None,
+        tail_proof=None,
     ):
         self.file = file
         self.path = path if isinstance(path, list) else [p.strip() for p in path.split("::")]
@@ -73,6 +74,8 @@ class Fn:
         self.str_match = str_match
         # R5 (arm form): [(pattern text, new body)]
         self.arms = arms or []
+        # R6 (tail form): (anchor where the tail expression starts, proof text placed after it)
+        self.tail_proof = tail_proof
 
 
 class Type:
@@ -181,7 +184,7 @@ def emit(unit):
                 rw.desugar_let_chains()
                 if "R8" not in rw.rules:
                     raise ExtractError("%s: let_chains requested but none found" % label)
-            rw.splice_fn(it.ret, it.spec, it.loops, it.before, it.after_open, it.loop_open, it.at_end)
+            rw.splice_fn(it.ret, it.spec, it.loops, it.before, it.after_open, it.loop_open, it.at_end, getattr(it, "tail_proof", None))
             if it.rename:
                 rw.subst("fn " + it.name, "fn " + it.rename, 1)
             for at in it.attrs:
